@@ -125,7 +125,13 @@ func (mq *MessageQueue) buildMessage(size uint64, buildMessageFn func(*Builder))
 		mq.builders = append(mq.builders, NewBuilder(ctx, topic))
 	}
 	builder := mq.builders[len(mq.builders)-1]
+	sizeBefore := builder.accountedSize()
 	buildMessageFn(builder)
+	// whatever part of the reservation the callback did not turn into queued data goes back right away
+	// (for example when the response stream was closed after the memory was reserved)
+	if added := builder.accountedSize() - sizeBefore; added < size {
+		_ = mq.allocator.ReleaseBlockMemory(mq.p, size-added)
+	}
 	mq.verifAt("built", builder.topic, builder)
 	return !builder.Empty()
 }
